@@ -89,6 +89,14 @@ if the_expression.embed_expression('PanelLikelihoodTrajectory'):
         ___
         raise BiogemeError(__MSG)
 """)
+    # positive form of "rebuilt before it is handed over": every hand-over of the map is dominated by an unconditional rebuild
+    ccfg = cfg_of(calc.node)
+    hand = [c for c in walk_no_nested(calc.node) if isinstance(c, ast.Call) and call_name(c) == 'setDataMap']
+    builds = [c for c in walk_no_nested(calc.node) if isinstance(c, ast.Call) and call_name(c) == 'build_panel_map']
+    for h in hand:
+        fresh = any(ccfg.dominates(ccfg.node_of(bl), ccfg.node_of(h)) and ccfg.node_of(bl) != ccfg.node_of(h) for bl in builds)
+        ctx.add('C09.R2', 'calculator:rebuild', fresh, (calc.file, h.lineno), 'the individual map is rebuilt on every path that hands it to the engine' if fresh
+                else 'the individual map is handed to the engine on a path that does not rebuild it: after a change of the rows (remove, sampling) the engine multiplies over the rows of a stale map', 'rebuild')
     ctx.add('C09.R2', 'calculator:panel', ok, calc, 'a trajectory operator needs panel data; the map is rebuilt and handed over' if ok else 'panel handling of the calculator changed', 'calc')
 
     g = D.methods['get_sample_size']
